@@ -13,3 +13,72 @@ def mutates_array(detector, arr=None, scalar=0.0):
                                    run=verif_probes.RUN_TAG[0]))
     geo = detector.geometry
     detector.pixel.array = np.full((geo.row, geo.col), seen + float(scalar))
+
+
+def _flatten(v, out):
+    if isinstance(v, dict):
+        for k in sorted(v, key=str):
+            _flatten(v[k], out)
+    elif isinstance(v, (list, tuple, np.ndarray)):
+        for x in v:
+            _flatten(x, out)
+    elif v is not None:
+        out.append(float(v))
+
+
+def _bump(v):
+    """Size-preserving in-place change of every MUTABLE container reachable from v (tuples are walked, not changed)."""
+    if isinstance(v, np.ndarray):
+        v += 1.0
+    elif isinstance(v, list):
+        for i, x in enumerate(v):
+            if isinstance(x, (int, float)) and not isinstance(x, bool):
+                v[i] = x + 1.0
+            else:
+                _bump(x)
+    elif isinstance(v, dict):
+        for k in list(v):
+            x = v[k]
+            if isinstance(x, (int, float)) and not isinstance(x, bool):
+                v[k] = x + 1.0
+            else:
+                _bump(x)
+    elif isinstance(v, tuple):
+        for x in v:
+            _bump(x)
+
+
+def mutates_container(detector, seq=None, table=None, scalar=0.0):
+    """pixel := sum of all numbers in `seq` and `table` + scalar; then every mutable container reachable from the
+    two arguments (plain list, nested lists, lists inside a tuple, dict, ndarray) is modified IN PLACE
+    (a model that normalises / consumes / sorts its own argument)."""
+    flat = []
+    _flatten(seq, flat)
+    _flatten(table, flat)
+    seen = float(sum(flat))
+    _bump(seq)
+    _bump(table)
+    verif_probes.TRACE.append(dict(probe="mutates_container", step=int(detector.pipeline_count), seen=seen,
+                                   run=verif_probes.RUN_TAG[0]))
+    geo = detector.geometry
+    base = detector.pixel.array if getattr(detector.pixel, "_array", None) is not None else 0.0
+    detector.pixel.array = np.full((geo.row, geo.col), seen + float(scalar)) + base
+
+
+def memory(detector, key="trap", inc=1.0):
+    """A model that keeps state in the detector's OWN memory: the `_memory` dict ("the memory of the detector where
+    trapped charges will be saved") and, when the detector has one, its persistence object (trapped charge).
+    pixel += memory[key] + 2 * sum(trapped) + inc; then memory[key] += inc and trapped += inc."""
+    mem = detector._memory
+    prev = float(np.sum(mem[key])) if key in mem else 0.0
+    pers = 0.0
+    if detector.has_persistence():
+        trapped = np.asarray(detector.persistence.trapped_charge_array, dtype=float)
+        pers = float(trapped.reshape(-1)[0]) if trapped.size else 0.0
+        detector.persistence.trapped_charge_array = trapped + float(inc)
+    mem[key] = np.asarray(mem.get(key, np.zeros(1)), dtype=float) + float(inc)
+    verif_probes.TRACE.append(dict(probe="memory", step=int(detector.pipeline_count), seen=prev, trapped=pers,
+                                   run=verif_probes.RUN_TAG[0]))
+    geo = detector.geometry
+    base = detector.pixel.array if getattr(detector.pixel, "_array", None) is not None else 0.0
+    detector.pixel.array = np.full((geo.row, geo.col), prev + 2.0 * pers + float(inc)) + base
